@@ -52,7 +52,20 @@ def gen_l4(rng, dv, proto):
     if proto == 6:
         sp, dp, off, flags = dv.val(2), dv.val(2), rng.randrange(16), rng.randrange(512)
         b = struct.pack(">HHIIHHHH", sp, dp, dv.val(4), dv.val(4), (off << 12) | flags, dv.val(2), dv.val(2), dv.val(2))
-        return b + bytes(rng.randrange(256) for _ in range(rng.choice([0, 0, 12]))), {"SrcPort": sp, "DstPort": dp, "DataOffset": off, "Reserved": 0, "Flags": flags}
+        # what follows the 20 fixed octets: nothing, payload, or TCP OPTIONS - well-formed ones and hostile ones (a length octet of 0 or
+        # 1, a length beyond what is there, kinds that do not exist, no end-of-list), whatever the data offset says
+        k = rng.random()
+        if k < 0.45:
+            tail = bytes(rng.randrange(256) for _ in range(rng.choice([0, 0, 12])))
+        else:
+            opts = rng.choice([b"\x03\x00\x00\x00", b"\x02\x00", b"\x02\x04\x05\xb4", b"\x01\x01\x08\x0a" + bytes(8), b"\x08\x01\x00\x00", b"\xfe\x00\x01\x01",
+                              b"\x02\xff\x00\x00", b"\x01" * 7 + b"\x05", b"\x00\x03\x00", b"\x13\x12" + bytes(3), b"\x04\x02\x03\x00\x02\x00"])
+            opts = opts * rng.choice([1, 1, 3])
+            tail = opts[:rng.choice([len(opts), len(opts), max(1, len(opts) - 1), 40])]
+            if rng.random() < 0.7:
+                off = min(15, 5 + (len(tail) + 3) // 4) if rng.random() < 0.7 else rng.choice([6, 8, 15])
+                b = b[:12] + struct.pack(">H", (off << 12) | flags) + b[14:]
+        return b + tail, {"SrcPort": sp, "DstPort": dp, "DataOffset": off, "Reserved": 0, "Flags": flags}
     if proto == 17:
         sp, dp = dv.val(2), dv.val(2)
         b = struct.pack(">HHHH", sp, dp, dv.val(2), dv.val(2)) + bytes(rng.randrange(256) for _ in range(rng.choice([0, 4, 20])))
